@@ -47,7 +47,7 @@ def grid(tier):
     quick = tier == "quick"
     R = rng("c08-grid")
     # C08 is about designs with connections: the connection-free fixed shapes belong to C09
-    ds = [d for d in g.fixed_shapes() if any(st["k"] == "c" for st in d.stmts)] + g.overlap_net_shapes()
+    ds = [d for d in g.fixed_shapes() if any(st["k"] == "c" for st in d.stmts)] + g.overlap_net_shapes() + g.ifc_shapes()
     cells = g.chain_cells()
     pick = cells if not quick else [cells[i] for i in sorted(R.sample(range(len(cells)), 70))]
     for i, c in enumerate(pick):
